@@ -281,7 +281,15 @@ impl HScenario {
             } else if take!(w_addassign) {
                 ops.push(HOp::AddAssign { dst: node, src: other });
             } else if take!(w_mul) {
-                ops.push(HOp::Mul { node, k: rng.below(5) });
+                // small factors mostly; sometimes large ones so that counts pass 2^32
+                let f = match rng.below(8) {
+                    0 => 1000,
+                    1 => 1_000_000,
+                    2 => 1u64 << 31,
+                    3 => 3_000_000_007,
+                    _ => rng.below(5),
+                };
+                ops.push(HOp::Mul { node, k: f });
             } else if take!(w_reset) {
                 ops.push(HOp::Reset { node });
             } else if take!(w_clone) {
@@ -524,7 +532,9 @@ impl HScenario {
                     for _ in 0..*times {
                         let dbg = cur.debug();
                         let json = cur.to_json();
-                        if json.contains("null") {
+                        if crate::framework::has_nonfinite_field(&dbg) || json == "null" {
+                            // infinite outer edge (outside C18's precondition), or the const-generic
+                            // twin, which has no serde support
                             st.bump("probe.checkpoint_nonfinite_skipped");
                             skipped = true;
                             break;
